@@ -17,6 +17,13 @@ func (ex *Exec) val(st *State, fr *Frame, v ssa.Value) Value {
 	case *ssa.Const:
 		return ex.constValue(x)
 	case *ssa.Global:
+		if at, ok := x.Type().(*types.Pointer).Elem().Underlying().(*types.Array); ok && x.Pkg != nil && strings.HasPrefix(x.Pkg.Pkg.Path(), ex.ModulePath) {
+			// a package-level array of the module lives in a heap row of its own (allocated by the package
+			// initialiser's run); if the package writes to it outside the initialiser its content is unknown
+			if ref, ok := ex.globalRow(st, x, at); ok {
+				return &VPtr{Nil: False, ElemRef: ref, ElemIdx: nil, ElemT: at.Elem(), T: x.Type().(*types.Pointer).Elem()}
+			}
+		}
 		obj := ex.globalObject(st, x)
 		return &VPtr{Nil: False, Obj: obj, T: x.Type().(*types.Pointer).Elem()}
 	case *ssa.Function:
@@ -271,6 +278,7 @@ func (ex *Exec) doAlloc(st *State, fr *Frame, in *ssa.Alloc) {
 	obj, ok := ex.cur.allocObjs[key]
 	if !ok {
 		obj = ex.newObject(fmt.Sprintf("%s.%s", fr.fn.Name(), name), et, true)
+		obj.Site = in
 		ex.cur.allocObjs[key] = obj
 	}
 	st.mem[obj] = ex.zeroValue(et)
